@@ -1015,6 +1015,9 @@ func init() {
 		c09nodesCase(c, T("X", "", "", T("DATE", "Aft. Dec 1880", "")), T("X", "", "", T("DATE", "16 Dec 1880", ""), T("DATE", "2 Jul 1881", "")), "pinned-years-tie")
 		c09nilCases(c)
 
+		// fixed boundary corpus (sizes, histories, bytes): c09c.go
+		c09boundary(c)
+
 		n := c.N(10000, 160000)
 		for i := 0; i < n; i++ {
 			g := tame
